@@ -99,8 +99,35 @@ def factory_product(I: Interp, o: Outcome, fac: Any) -> Optional[Tuple[Any, int,
     return st.heap[v[1]], v[1], v[1] not in o.state.heap
 
 
-def handler_is_builder_bound_to_callback(od: Any) -> bool:
-    return bool(isinstance(od, tuple) and od[:1] == ("partialobj",) and od[1][0] == "func" and od[1][1].qualname == "_parse_device_from_datagram" and od[2] == (("sym", "on_device", "callable"),))
+_DEFERRING = ("call_soon", "call_soon_threadsafe", "call_later", "call_at", "run_in_executor", "create_task", "ensure_future")
+
+
+def handler_is_builder_bound_to_callback(od: Any) -> Optional[bool]:
+    """True: the datagram handler is the builder bound to the user's callback (partial(builder, cb), or a one-parameter
+    lambda whose body is builder(cb, <that parameter>)).  False: it hands the datagram to a scheduling primitive of the
+    event loop (the builder then runs later - after stop() may have returned, and no longer once per datagram in arrival
+    order) or is bound to something else than the callback.  None: another form, not judged."""
+    import ast as _ast
+    cb = ("sym", "on_device", "callable")
+    if isinstance(od, tuple) and od[:1] == ("partialobj",):
+        f = od[1]
+        if f[0] == "func" and f[1].qualname == "_parse_device_from_datagram":
+            return od[2] == (cb,)
+        if f[0] == "extmeth" and f[2] in _DEFERRING:
+            return False
+        return None
+    if isinstance(od, tuple) and od[:1] == ("lambda",) and isinstance(od[1], _ast.Lambda) and len(od[1].args.args) == 1:
+        body = od[1].body
+        p = od[1].args.args[0].arg
+        if isinstance(body, _ast.Call):
+            fn = _ast.unparse(body.func).split(".")[-1]
+            if fn in _DEFERRING:
+                return False
+            if fn == "_parse_device_from_datagram" and len(body.args) == 2 and not body.keywords and isinstance(body.args[1], _ast.Name) and body.args[1].id == p \
+                    and _ast.unparse(body.args[0]) in ("self._on_device", "on_device"):
+                return True
+        return None
+    return None
 
 
 def restart_check(prog: Program, iter_count: Any, flat: Any) -> Tuple[Optional[str], int, set]:
